@@ -60,9 +60,46 @@ class _Linalg:
         return out.reshape(b.shape)
 
 
+class _NdMeta(type):
+    def __instancecheck__(cls, inst):
+        return isinstance(inst, _np.ndarray)
+
+
+class _NdarrayProxy(metaclass=_NdMeta):
+    """np.ndarray(shape) allocates an object array; isinstance(x, np.ndarray) keeps working"""
+    def __new__(cls, shape, dtype=None, *a, **kw):
+        OVERRIDES_USED.add('np.ndarray(shape) -> object dtype allocation')
+        out = _np.empty(shape, dtype=object)
+        out[...] = sp.Integer(0)
+        return out
+
+
+def squareform_obj(x, *a, **kw):
+    """scipy.spatial.distance.squareform for object arrays (same index convention: condensed = row-major upper triangle)"""
+    x = _np.asarray(x)
+    if x.dtype != object:
+        from scipy.spatial.distance import squareform
+        return squareform(x, *a, **kw)
+    OVERRIDES_USED.add('scipy squareform -> same condensed <-> square index map on object arrays')
+    if x.ndim == 1:
+        m = len(x)
+        n = int(round((1 + (1 + 8 * m) ** 0.5) / 2))
+        out = _np.empty((n, n), dtype=object)
+        out[...] = sp.Integer(0)
+        k = 0
+        for i in range(n):
+            for j in range(i + 1, n):
+                out[i, j] = out[j, i] = x[k]
+                k += 1
+        return out
+    n = x.shape[0]
+    return _np.array([x[i, j] for i in range(n) for j in range(i + 1, n)], dtype=object)
+
+
 class NpProxy:
     """numpy stand-in bound to the module-global name `np` of the modules under test"""
     linalg = _Linalg()
+    ndarray = _NdarrayProxy
 
     def __getattr__(self, name):
         return getattr(_np, name)
@@ -159,6 +196,9 @@ def patched_np(module_names):
         if hasattr(mod, 'np'):
             saved.append((mod, 'np', mod.np))
             mod.np = proxy
+        if hasattr(mod, 'squareform'):
+            saved.append((mod, 'squareform', mod.squareform))
+            mod.squareform = squareform_obj
     try:
         yield proxy
     finally:
